@@ -16,7 +16,7 @@ theorem C04_ddata_ordered (cd : Nat) (acts : List Act) (s : St) (tr : List Obs) 
     (hone : ∀ pre, pre <+: acts → ∀ s1 t1, runActs (init cd) pre = some (s1, t1) →
         ((s1.devs.filter fun x => x.name == d && x.pc != .done).length ≤ 1)) :
     ddataOk d .none tr = true := by
-  sorry
+  exact ddata_ordered cd acts s tr d h hone
 
 /-- **DDEATH only after DBIRTH.** A DDEATH is only handed over for a device whose latest
 lifecycle hand-over on the connection was a DBIRTH.
@@ -27,7 +27,7 @@ theorem C04_ddeath_after_dbirth (cd : Nat) (acts : List Act) (s : St) (tr : List
     (hone : ∀ pre, pre <+: acts → ∀ s1 t1, runActs (init cd) pre = some (s1, t1) →
         ((s1.devs.filter fun x => x.name == d && x.pc != .done).length ≤ 1)) :
     ddeathOk d false tr = true := by
-  sorry
+  exact ddeath_after_dbirth cd acts s tr d h hone
 
 /-- **DBIRTH never for a disabled or unregistered device**: a device-task step that hands a
 DBIRTH over leaves that device enabled and registered (it was enabled before the step, or the
@@ -37,7 +37,7 @@ theorem C04_dbirth_only_enabled_registered (s s' : St) (u : Nat) (dec : Dec) (k 
     (h : (step s (.dev u) dec)[k]? = some (s', o)) (hc : Obs.call id .dbirth d sq bd t dc ∈ o) :
     ∃ x x', findUid u s.devs = some x ∧ findUid u s'.devs = some x' ∧ d = some x.name ∧
       x'.enabled = true ∧ x.registered = true ∧ s.online = true ∧ s.birthed = true := by
-  sorry
+  exact dbirth_only_enabled_registered s s' u dec k o id d sq bd t dc h hc
 
 /-- **DBIRTH on enable**: processing an enable request while the node is online and birthed and
 the device is registered and not yet birthed hands over exactly one DBIRTH with the next
@@ -47,6 +47,6 @@ theorem C04_enable_births (s : St) (u : Nat) (dec : Dec) (x : Dev) (rest : List 
     (hreg : x.registered = true) (hfl : x.flag = false) (hon : s.online = true) (hb : s.birthed = true) :
     ∃ s' id dc, step s (.dev u) dec = [(s', [.bDev x.name,
         .call id .dbirth (some x.name) (some ((s.seq + 1) % 256)) none false dc])] := by
-  sorry
+  exact enable_births s u dec x rest hx hpc hq hh hreg hfl hon hb
 
 end Srad.Eon
